@@ -58,7 +58,14 @@ def isas_special(did, k):
         [variant("V%03d" % i, "tuple" if i in (5, 130, 258, 299) else "unit", [field("u8")] if i in (5, 130, 258, 299) else [], dis=(i in (7, 260)))
          for i in range(300)],
     ]
+    shapes.append([variant("Wide", "tuple", [field(t) for t in ("u8", "i32", "bool", "String", "u16", "i64", "char", "u8", "i32", "u16", "i64", "bool", "u8")]),
+                   variant("Twelve", "tuple", [field("u8")] * 12), variant("Plain"), variant("Ten", "tuple", [field("i32")] * 10)])
+    shapes.append("REPR_EXPR")
     sh = shapes[k % len(shapes)]
+    if sh == "REPR_EXPR":
+        vs = [variant("Neg", disc=-1, discx="-1"), variant("Zero"), variant("Letter", "tuple", [field("u8")], disc=103, discx="b'g' as i16"), variant("After"),
+              variant("Shift", disc=64, discx="1 << 6"), variant("Hex", "tuple", [field("bool")], disc=256, discx="0x100"), variant("Sum", disc=21, discx="5 + 0x10"), variant("Last")]
+        return enum(did, vs, repr_="i16")
     if sh == "REPR_U8":
         vs = [variant("Small", "tuple", [field("u8")], disc=1), variant("Pair", "tuple", [field("u8"), field("bool")], disc=7), variant("Empty", "tuple", [], disc=9),
               variant("Plain", disc=12), variant("Named", "named", [field("u8", "x")]), variant("Off", "tuple", [field("u8")], dis=True, disc=40)]
@@ -81,7 +88,7 @@ def _vals(E, v, which):
         elif ty == "str":
             base = '"r%d%d"' % (which, k)
         elif ty == "char":
-            base = "'%s'" % "abcdefgh"[3 * (which - 1) + k]
+            base = "'%s'" % "abcdefghijklmnopqrstuvwxyz"[(13 * (which - 1) + k) % 26]
         elif ty == "opt":
             base = "Some(%du8)" % (10 * which + k)
         elif ty == "bool":
@@ -246,7 +253,8 @@ def msg_module(E):
 
 # --------------------------------------------------------------------------- EnumProperty (C15)
 KEYS = ["color", "Color", "n", "size", "type", "fn", "self", "key_1", "k", "K", "length", "is_ok", "x", "crate", "red",
-        "disabled", "default", "serialize", "message", "props", "gr\u00f6\u00dfe", "\u00f6ffnen", "cl\u00e9"]
+        "disabled", "default", "serialize", "message", "props", "gr\u00f6\u00dfe", "\u00f6ffnen", "cl\u00e9",
+        "threshold_min", "threshold_max", "description_long_form", "description_long_from"]
 INTS = [(0, "0"), (1, "1"), (-1, "-1"), (42, "42"), (255, "0xFF"), (1000, "1_000"), (7, "7i64"), (-17, "-17"),
         (2**63 - 1, "9223372036854775807"), (-2**63, "-9223372036854775808"), (8, "0o10"), (5, "0b101"), (-255, "-0xff"),
         (255, "0xFFi64"), (493, "0o755i64"), (10, "0b1010_i64"), (255, "0xff_i64"), (1000, "1_000i64"), (16, "16i64")]
@@ -320,7 +328,9 @@ def prop_module(E, rng):
     for v in E["variants"]:
         for p in v["props"]:
             ks = uncp(p["key"])
-            for cand in (ks, ks.upper(), ks.lower(), ks.capitalize(), ks + "_", "_" + ks, ks[:-1], ks + ks, " " + ks):
+            tail = ks[:-1] + chr(ord(ks[-1]) ^ 1) if ks and ord(ks[-1]) < 128 else ks + "x"      # same length, same beginning, another last byte
+            mid = ks[:len(ks) // 2] + chr(ord(ks[len(ks) // 2]) ^ 2) + ks[len(ks) // 2 + 1:] if ks and ord(ks[len(ks) // 2]) < 128 else ks
+            for cand in (ks, ks.upper(), ks.lower(), ks.capitalize(), ks + "_", "_" + ks, ks[:-1], ks + ks, " " + ks, tail, mid):
                 if cand not in allkeys:
                     allkeys.append(cand)
     for cand in ["", "zz", "prop", "é", "color ", "\0"]:
